@@ -1,14 +1,19 @@
 // vcheck run <ID>   — run one property check (tier from VERIF_TIER)
 // vcheck list       — list registered checks
 // vcheck replay <f> — re-execute a recorded (scenario, schedule) replay file
+// vcheck selftest [-v] — run the documentation-derived self-test of pgsim (DESIGN 2.6);
+//                    exit 0 iff no case fails, exit 2 otherwise; writes no evidence
 package main
 
 import (
 	"fmt"
 	"os"
 	"sort"
+	"strings"
+	"time"
 
 	_ "github.com/formancehq/ledger/verifh/pfault"
+	"github.com/formancehq/ledger/verifh/pgsim"
 	_ "github.com/formancehq/ledger/verifh/phttp"
 	_ "github.com/formancehq/ledger/verifh/pimport"
 	_ "github.com/formancehq/ledger/verifh/pnum"
@@ -20,7 +25,7 @@ import (
 
 func main() {
 	if len(os.Args) < 2 {
-		fmt.Println("usage: vcheck run <ID> | list | replay <file>")
+		fmt.Println("usage: vcheck run <ID> | list | replay <file> | selftest [-v]")
 		os.Exit(2)
 	}
 	switch os.Args[1] {
@@ -47,8 +52,36 @@ func main() {
 			os.Exit(2)
 		}
 		os.Exit(props.ReplayConc(os.Args[2]))
+	case "selftest":
+		os.Exit(selfTest(len(os.Args) > 2 && os.Args[2] == "-v"))
 	default:
 		fmt.Println("unknown command")
 		os.Exit(2)
 	}
+}
+
+// selfTest runs pgsim.SelfTest: one line per failing case (every case with -v), then the
+// summary. A failing case means the trusted base deviates from the PostgreSQL
+// documentation: exit 2 (engine error), never a property verdict.
+func selfTest(verbose bool) int {
+	t0 := time.Now()
+	rs := pgsim.SelfTest()
+	for _, r := range rs {
+		switch {
+		case r.Skipped:
+			if verbose {
+				fmt.Printf("SKIP %s: %s\n", r.Name, r.Detail)
+			}
+		case !r.Passed:
+			fmt.Printf("FAIL %s [%s]: %s | rule: %s\n", r.Name, r.Basis, strings.ReplaceAll(r.Detail, "\n", " "), r.Rule)
+		case verbose:
+			fmt.Printf("ok   %s [%s] %s\n", r.Name, r.Basis, r.Elapsed.Round(time.Microsecond))
+		}
+	}
+	n, failed, skipped := pgsim.SelfTestSummary(rs)
+	fmt.Printf("SELFTEST cases=%d failed=%d skipped=%d elapsed=%s\n", n, failed, skipped, time.Since(t0).Round(time.Millisecond))
+	if failed != 0 {
+		return 2
+	}
+	return 0
 }
